@@ -36,3 +36,4 @@ import LexVerif.Model.Ops.ParseFloatAlgo
 -- big-integer slow path (slow.rs / bigint.rs): models, op handler, theorems
 import LexVerif.Model.Ops.Slow
 import LexVerif.Props.C01Slow
+import LexVerif.Props.C01SlowMain
